@@ -227,11 +227,11 @@ type attr struct {
 	kind   string
 }
 
-func aInt(n string, v int64) attr      { return attr{name: n, i: &v, kind: "int"} }
-func aInts(n string, v []int64) attr   { return attr{name: n, ints: v, kind: "ints"} }
-func aStr(n string, v string) attr     { return attr{name: n, s: &v, kind: "str"} }
-func aStrs(n string, v []string) attr  { return attr{name: n, strs: v, kind: "strs"} }
-func aFloat(n string, v float32) attr  { return attr{name: n, f: &v, kind: "float"} }
+func aInt(n string, v int64) attr        { return attr{name: n, i: &v, kind: "int"} }
+func aInts(n string, v []int64) attr     { return attr{name: n, ints: v, kind: "ints"} }
+func aStr(n string, v string) attr       { return attr{name: n, s: &v, kind: "str"} }
+func aStrs(n string, v []string) attr    { return attr{name: n, strs: v, kind: "strs"} }
+func aFloat(n string, v float32) attr    { return attr{name: n, f: &v, kind: "float"} }
 func aFloats(n string, v []float32) attr { return attr{name: n, floats: v, kind: "floats"} }
 
 func (a attr) proto() *onnx.AttributeProto {
@@ -365,13 +365,14 @@ func emitOp(cw *caseWriter, op string, attrs []attr, mkIns func() []tensor.Tenso
 }
 
 // Side observations made on every operator case of every stream:
-//  - effects (C02): the input tensors after the call must be what they were before it;
-//  - instance reuse: ONE operator instance applied first to the previous case of the same operator
-//    and attributes and then to this one must behave like a fresh instance (Apply must not leave
-//    state behind that changes a later Apply).
+//   - effects (C02): the input tensors after the call must be what they were before it;
+//   - instance reuse: ONE operator instance applied first to the previous case of the same operator
+//     and attributes and then to this one must behave like a fresh instance (Apply must not leave
+//     state behind that changes a later Apply).
 var effectsAll = goOnlyResult{Stream: "effects_all_streams", Rule: "every operator case generated by the operator-level streams (C03, C04, C05, C07, C08, C09, C10, C11, C06 generators): deep snapshot (dtype, shape, payload bits) of every input after Init/ValidateInputs/Apply equals the snapshot before", Violations: []string{}}
 var reuseAll = goOnlyResult{Stream: "instance_reuse", Rule: "one operator instance (one Init) applied to the previous case's inputs and then to this case's inputs returns what a fresh instance returns for this case", Violations: []string{}}
 var lastIns = map[string]func() []tensor.Tensor{}
+
 // Conv fills its attribute fields (dilations, kernel_shape, pads, strides) from its FIRST input when
 // they are absent; an instance re-used on another geometry is something Model.Run never does (one
 // operator per node per Run, C15), so that is not judged here.
